@@ -27,7 +27,6 @@ pub type RawFd = i32;
 impl<'a> From<BorrowedFd<'a>> for FrozenFd { #[verifier::external_body] fn from(fd: BorrowedFd<'a>) -> FrozenFd { unimplemented!() } }
 impl From<&Path> for PathBuf { #[verifier::external_body] fn from(p: &Path) -> PathBuf { unimplemented!() } }
 
-pub open spec fn valid_dirfd(id: int) -> bool { raw_of(id) == libc::AT_FDCWD as int || raw_of(id) >= 0 }
 pub open spec fn stat_flags_ok(f: AtFlags) -> bool { f.bits == 0x800u32 | 0x100u32 | 0x1000u32 }
 
 /// R8: `PathBuf::from(OsStr::from_bytes(b))`
